@@ -59,6 +59,13 @@ package bunpaginate
 //@   ensures err == nil && query.Reverse && len(lastScan) <= query.PageSize ==> ret0.Previous == ""
 // reverse: going forward again resumes at the id this cursor carries
 //@   ensures err == nil && query.Reverse ==> exists q2 typeof(query) :: ret0.Next == cursorOfColumn(anyof(q2)) && sameQuery(q2, query) && !q2.Reverse && q2.PaginationID == query.PaginationID
+// the bound put on the pagination column: a forward page starts AT the id its cursor carries (inclusive), a page reached
+// through `previous` ends just BEFORE it (exclusive) -- with an inclusive bound there, the previous page repeats the first
+// row of the page one came from and drops a row at its other end
+//@   ensures err == nil && query.PaginationID != nil && query.Reverse && query.Order == 0 ==> qWhere[sb] == sprintf("%s < ?", query.Column)
+//@   ensures err == nil && query.PaginationID != nil && query.Reverse && query.Order == 1 ==> qWhere[sb] == sprintf("%s > ?", query.Column)
+//@   ensures err == nil && query.PaginationID != nil && !query.Reverse && query.Order == 0 ==> qWhere[sb] == sprintf("%s >= ?", query.Column)
+//@   ensures err == nil && query.PaginationID != nil && !query.Reverse && query.Order == 1 ==> qWhere[sb] == sprintf("%s <= ?", query.Column)
 //@   loop 2 invariant 0 - 1 <= rangeindex && rangeindex < len(ret) && len(paginationIDs) == rangeindex + 1
 //@   loop 2 invariant forall j in 0..rangeindex+1 :: paginationIDs[j] == pidx(ret[j], paginatedColumnIndex)
 //@   loop 2 invariant query.PageSize == old(query.PageSize) && query.Column == old(query.Column) && query.Order == old(query.Order) && query.Options == old(query.Options) && query.Reverse == old(query.Reverse) && query.PaginationID == old(query.PaginationID)
